@@ -320,13 +320,18 @@ class Driver:
         if self.conn is None:
             self.open()
         del LOG[:]
+        x = self.ctx.extra
+        x["calls"] = x.get("calls", 0) + 1
         try:
             res = getattr(self.conn.proxy, method)(**kwargs)
+            x["impl_invocations_observed"] = x.get("impl_invocations_observed", 0) + len(LOG)
             return "ok", res, list(LOG)
         except BaseException as e:  # noqa: BLE001 - every caller-side error is an observation
             if isinstance(e, (KeyboardInterrupt, SystemExit)):
                 raise
             inv = list(LOG)
+            x["caller_side_errors"] = x.get("caller_side_errors", 0) + 1
+            x["impl_invocations_observed"] = x.get("impl_invocations_observed", 0) + len(inv)
             # is the connection still usable?  (C04's business; we only need to carry on)
             try:
                 del LOG[:]
@@ -403,7 +408,7 @@ def judge_bad(ctx: Any, drv: Driver, method: str, tname: str, label: str, param:
     out = "rejected" if st == "raised" else "accepted-equal"
     for m, kw in inv:
         if m == method and not loose_eq(kw.get(param), sent):
-            ctx.fail(f"unrepresentable:{base_name(tname)}<-{label}:invoked-with-changed-value",
+            ctx.fail(f"unrepresentable:{base_name(tname)}<-{label}:changed",
                      f"[{drv.kind}] {method}({param}={sent!r:.120}): the implementation was invoked with {kw.get(param)!r:.120}" + (f" and the caller then saw {res!r:.200}" if st == "raised" else ""), case)  # fmt: skip
             return "invoked-changed"
     if st == "ok" and label == "none":
@@ -413,7 +418,7 @@ def judge_bad(ctx: Any, drv: Driver, method: str, tname: str, label: str, param:
     if st == "ok":
         # no error: then nothing may have changed (result of e_/d_/p_ is the parameter itself)
         if method[0] in "edp" and param in ("x", "a") and not loose_eq(res, sent):
-            ctx.fail(f"unrepresentable:{base_name(tname)}<-{label}:returned-changed-value", f"[{drv.kind}] {method}({param}={sent!r:.120}) returned {res!r:.120} without an error", case)
+            ctx.fail(f"unrepresentable:{base_name(tname)}<-{label}:changed", f"[{drv.kind}] {method}({param}={sent!r:.120}) returned {res!r:.120} without an error", case)
             return "returned-changed"
         if not drv.observes and not loose_eq(res, sent):
             return "returned-changed"
